@@ -218,6 +218,16 @@ func (r *c09Runner) Step(t []string, raw string) string {
 	if _, errReuse := frontend.ParseCypher(reused, q); errReuse == nil {
 		accReuse = 1
 	}
+	// ... also when the caller has emptied the exported Errors slice between two parses (the documented way to reuse a
+	// context): whatever the context remembers privately about errors it has already reported must not swallow the
+	// report for the next query (seed C09-r6-2). The same query twice is the worst case for any de-duplication.
+	cleared := frontend.DefaultCypherContext()
+	_, _ = frontend.ParseCypher(cleared, q)
+	cleared.Errors = nil
+	if _, errCleared := frontend.ParseCypher(cleared, q); errCleared == nil && acc == 0 {
+		accReuse = 1
+		r.stats.Inc("reuse_after_clearing_errors_accepts")
+	}
 	if accReuse == 1 && accOld == 0 {
 		accOld = 1 // reported through the same field: some non-fresh default context accepted the query
 	}
